@@ -1392,11 +1392,12 @@ def etempo_case(h, acc, rng, vid):
     clock.sched_abs(b_sched + ahead, Function(f))
     time.sleep(0.05)
     new_tempo = rng.choice([2.0, 4.0])
-    b0 = clock.elapsed_beats()
+    # the two time readings bracket the two beat readings
     t0 = h.main.elapsed_time()
+    b0 = clock.elapsed_beats()
     clock.etempo(new_tempo)
-    t1 = h.main.elapsed_time()
     b1 = clock.elapsed_beats()
+    t1 = h.main.elapsed_time()
     acc.count('etempo_cases')
     acc.case(h64(('etempo', vid)), nontrivial=True)
     # continuity: between the two readings at most (t1 - t0) * max tempo beats
